@@ -126,7 +126,7 @@ def run_cases(ctx, res, cases):
 def run(ctx, res):
     rng = ctx.rng
     cases = []
-    n = ctx.budget(150, 1500)
+    n = ctx.budget(500, 3000)
     while len(cases) < n:
         c = gen_case(ctx, rng)
         if consistent(c):
